@@ -498,4 +498,66 @@ func init() {
 		RequiredReach: []string{"c10_logout_from_uid", "c10_logout_from_anon", "c10_next_request_refused", "c10_wrong_method_ignored", "c10_whitelisted_kept", "c10_cookie_removed",
 			"c10_logout_from_pending", "c10_logout_from_oauth2"},
 	})
+
+	register(&Profile{
+		ID: "C14",
+		Config: func(r *Rng, tier string) Config {
+			c := baseConfig(r)
+			c.dropSetups("expire")
+			c.ensureModules("oauth2", "logout")
+			c.Providers = []string{"google", "fb2"}
+			c.EmailAuth2FA = false
+			if r.Chance(2, 3) {
+				c.dropModules("lock")
+			}
+			c.dropModules("confirm")
+			return c
+		},
+		Gen: func(r *Rng, tier string) *genProfile {
+			return &genProfile{MaxSteps: steps(tier, 40, 100), Default: 0, FollowUp: 55, Template: 35,
+				Templates: []string{"oauth_flow", "oauth_flow", "oauth_cross", "oauth_remember", "login_ok"},
+				Weights: withW(loginWeights, map[string]int{"oauth2_start": 20, "oauth2_callback": 24, "replay": 10, "logout": 5, "login": 5, "probe": 3,
+					"recover_start": 0, "recover_end": 0, "register": 1, "totp_validate": 1, "sms_validate": 1, "op_lock": 2, "op_unlock": 1}),
+				BadSecret: 35, ThreshGaps: 5, SmallGaps: 15, Redir: 15}
+		},
+		Oracle:     newC14Oracle,
+		Nontrivial: anyReach("c14_login"),
+		RequiredReach: []string{"c14_login", "c14_state_spent", "c14_pid_roundtrip", "c14_pid_unparsable", "c14_refused_provider_error", "c14_refused_no_session_state",
+			"c14_refused_replayed", "c14_refused_cross_browser", "c14_refused_mismatch"},
+	})
+	register(&Profile{
+		ID: "C15",
+		Config: func(r *Rng, tier string) Config {
+			c := baseConfig(r)
+			c.dropSetups("expire")
+			c.ensureModules("oauth2", "otp")
+			c.ensureSetups("totp", "sms")
+			c.JSON = r.Bool()
+			if c.JSON {
+				c.MailRouteMethod = "POST"
+			} else {
+				c.MailRouteMethod = "GET"
+			}
+			c.EmailAuth2FA = false
+			c.dropModules("lock", "confirm")
+			for i := range c.Accounts {
+				c.Accounts[i].Confirmed = true
+				if c.Accounts[i].OTPs == 0 {
+					c.Accounts[i].OTPs = 2
+				}
+			}
+			return c
+		},
+		Gen: func(r *Rng, tier string) *genProfile {
+			return &genProfile{MaxSteps: steps(tier, 40, 100), Default: 0, FollowUp: 70, Template: 35,
+				Templates: []string{"oauth_flow", "login_ok", "otp_flow", "twofa_redir"},
+				Weights: withW(loginWeights, map[string]int{"login": 24, "otp_login": 10, "oauth2_start": 12, "oauth2_callback": 12, "totp_validate": 8, "sms_validate": 8,
+					"logout": 6, "login_get": 2, "probe": 4, "recover_start": 1, "recover_end": 1, "register": 1}),
+				BadSecret: 10, ThreshGaps: 3, SmallGaps: 15, Redir: 85, RedirGen: genRedirTarget}
+		},
+		Oracle:     newC15Oracle,
+		Nontrivial: anyReach("c15_"),
+		RequiredReach: []string{"c15_local_target_honoured_login", "c15_local_target_honoured_otp_login", "c15_local_target_honoured_totp_validate", "c15_local_target_honoured_sms_validate",
+			"c15_local_target_honoured_oauth2_callback", "c15_offsite_target_ignored"},
+	})
 }
